@@ -1195,7 +1195,9 @@ func (r *Run) chainExact(B *OResp, e *Exch) bool {
 	}
 	var since []*UpCall
 	for _, o := range r.Calls {
-		if o.Res == B.Res && o.SeqStart > B.SeqResp && o.SeqStart < e.SeqInv && safeMethods[o.Req.Method] {
+		// (a background validation belongs here from the moment its exchange was invoked, not only once its own
+		// origin call starts: the exchange e may be invoked in between and read the entry after its write)
+		if o.Res == B.Res && o.SeqStart > B.SeqResp && began(o) < e.SeqInv && safeMethods[o.Req.Method] {
 			since = append(since, o)
 		}
 		if o != B.Call && o.Res == B.Res && o.SeqStart <= B.SeqResp && r.lastSeqOfLineage(o) > B.SeqResp && safeMethods[o.Req.Method] {
